@@ -394,9 +394,10 @@ func ZZ_C10_FailThenRecycle(q, entry, kind int) {
 // zzUnitReader hands out `units` two-byte units [0xA0+i, symbolic], one per Read call (each becomes one chunk of
 // the streaming entry point).
 type zzUnitReader struct {
-	units int
-	i     int
-	body  [4]byte
+	units       int
+	i           int
+	body        [4]byte
+	eofWithData bool // the last unit is returned together with io.EOF (what an HTTP body or iotest.DataErrReader does)
 }
 
 func (r *zzUnitReader) Read(p []byte) (int, error) {
@@ -406,6 +407,9 @@ func (r *zzUnitReader) Read(p []byte) (int, error) {
 	p[0] = byte(0xA0 + r.i)
 	p[1] = r.body[r.i]
 	r.i++
+	if r.eofWithData && r.i == r.units {
+		return 2, io.EOF
+	}
 	return 2, nil
 }
 
@@ -413,12 +417,13 @@ func (r *zzUnitReader) Read(p []byte) (int, error) {
 // copies each chunk into a pooled buffer and queues it: with pooled buffers havocked the moment they are Put back
 // (and a second writer using Write1 with a scribbling caller), every chunk and every payload must reach the
 // transport intact, the reader's chunks in their order. Chunk boundaries / interleaving with the other writer are
-// not asserted here (C09's subject).
+// not asserted here (C09's subject). other: bit 0 a second writer, bit 1 the reader returns its last data with io.EOF.
 func ZZ_C10_ReadFrom(q, until, units, other int) {
 	tr := newZZTransport()
 	pl := NewPipeline()
 	ch := zzNewChannel(pl, tr, q, until != 0)
-	rd := &zzUnitReader{units: units}
+	rd := &zzUnitReader{units: units, eofWithData: other&2 != 0}
+	other &= 1
 	for i := 0; i < units; i++ {
 		rd.body[i] = vrt.Byte()
 	}
